@@ -444,8 +444,68 @@ func runC04(w *World, r *Report) {
 	shareRule(w, r, "C04.array-merge-owns-its-array", "merging array-backed readers starts from a slice of its own, never from the first reader's array: spare capacity of a producer's slice is shared by every reader made from it, so two fan-in nodes fed by one array-backed stream would overwrite each other's partner chunks in the stream paradigms only", 1, "C08", "C08.array-alias")
 	shareRule(w, r, "C04.no-data-value-both-paradigms", "the 'no data' value of a node whose input is assembled from mappings is the map the assembling converter expects, in the value form and in the stream form alike (Invoke returns, Stream / Collect / Transform must not fail on a differently typed empty stream)", 1, "C02", "C02.zero-input-fits-handlers")
 	shareRule(w, r, "C04.chunk-tolerance-at-every-depth", "a map key a chunk lacks is tolerated in the chunk-wise paradigms at every element of the source path, as the concatenated value has it under Invoke", 1, "C15", "C15.stream-key-tolerance")
+	shareRule(w, r, "C04.twice-reached-successor-keeps-its-copy", "a successor reached twice from one node in a step keeps the stream copy it already has: the spare copy is closed and NOT stored over the good one (values have no close, so Invoke would not notice)", 1, "C19", "C19.no-dropped-copy")
 
 	// ---- role-uniform (generalises in-out-wiring to every struct and function of the module)
+	r.Rule("C04.helper-slots-typed-by-their-side", "newGenericHelper[I, O] fills every input* slot of the helper (both halves of a handler pair included) from an instance over I and every output* slot from an instance over O: a stream half instantiated over the other parameter keeps Invoke right and makes the stream paradigms re-pack an interface-typed output as StreamReader[I]", 10)
+	{
+		ngh := w.Fn("compose", "newGenericHelper")
+		ghT := w.Named("compose", "genericHelper")
+		n := 0
+		instrs(ngh, func(in ssa.Instruction) {
+			st, ok := in.(*ssa.Store)
+			if !ok {
+				return
+			}
+			// the genericHelper field this store ends up in
+			var slot string
+			a := st.Addr
+			for d := 0; d < 4; d++ {
+				fa, isFA := a.(*ssa.FieldAddr)
+				if !isFA {
+					break
+				}
+				if nt := namedOf(deref(fa.X.Type())); nt != nil && nt == ghT {
+					slot = fieldVarOfAddr(fa).Name()
+					break
+				}
+				a = fa.X
+			}
+			if slot == "" {
+				return
+			}
+			want := ""
+			switch {
+			case strings.HasPrefix(slot, "input"):
+				want = "I"
+			case strings.HasPrefix(slot, "output"):
+				want = "O"
+			default:
+				return
+			}
+			var inst *ssa.Function
+			switch v := st.Val.(type) {
+			case *ssa.Function:
+				inst = v
+			case *ssa.Call:
+				inst = staticCallee(v)
+			case *ssa.MakeClosure:
+				inst, _ = v.Fn.(*ssa.Function)
+			case *ssa.ChangeType:
+				inst, _ = v.X.(*ssa.Function)
+			}
+			if inst == nil || len(inst.TypeArgs()) == 0 {
+				return
+			}
+			n++
+			got := inst.TypeArgs()[0].String()
+			r.Check(got == want, "C04.helper-slots-typed-by-their-side", fmt.Sprintf("newGenericHelper: slot %s #%d filled from %s", slot, n, origin(inst).Name()), st.Pos(), "instantiated over "+want, "instantiated over "+got+" where the slot belongs to the "+want+" side: the value half and the stream half of the run-time check disagree about the type — Invoke passes the check, Stream / Collect / Transform re-pack the stream as a reader of the wrong type ('impossible' panic in toGenericRunnable, or 'unexpected input type … *schema.StreamReader[…]' behind a pass-through) whenever the owner has I != O")
+		})
+		if n < 10 {
+			undecidedf("C04.helper-slots-typed-by-their-side: only %d generic instances stored by newGenericHelper", n)
+		}
+	}
+
 	r.Rule("C04.role-uniform", "within one function, same-role fields (input* / output*, pre* / post*) of one struct are filled from sources of one role; a lone cross-role assignment is a copy within one object", 20)
 	ruleRoleUniform(w, r, "C04.role-uniform", "compose", "schema", "internal", "flow", "callbacks", "components", "utils")
 
